@@ -42,6 +42,25 @@ def _init_int_max_str_digits() -> int:
 MAX_STR_INT = _init_int_max_str_digits()
 
 
+def int_literal(val: str) -> int:
+    """Return the exact integer value of an integer literal, like `42` or `1e3`.
+
+    Raises a `LiquidValueError` if the literal has too many digits.
+    """
+    mantissa, _, exponent = val.lower().partition("e")
+    if not exponent:
+        return to_int(mantissa)
+
+    exp = to_int(exponent)
+    if MAX_STR_INT != 0 and len(mantissa) + exp > MAX_STR_INT:
+        raise LiquidValueError(
+            f"integer string conversion limit ({MAX_STR_INT}) reached: "
+            f"value has {len(mantissa) + exp} digits",
+            token=None,
+        )
+    return to_int(mantissa) * 10**exp
+
+
 def to_int(val: Any) -> int:
     """Prevent DoS by very large str to int conversion.
 
